@@ -127,6 +127,73 @@ def lm(ctx):
                     t = inner_type(ftypes.get(f, ""))
                     if t not in prop_types:
                         out.append(Inst("LM", "%s:LM4:%s:non-property-in-%s" % (name, f, h), False, site0, "field %s (type %s) is counted in %s() but is not a property" % (f, t, h), "only properties in the property length"))
+        # LM-5 guard agreement: the flag predicates (will_flag(), is_shortened(), ...) a field's emission is control
+        # dependent on are the ones its length contribution is control dependent on
+        flag_helpers = {h for h in info["helpers"] if not h.endswith("_len") and h not in ("payload_flags", "fixed_hdr")}
+        if flag_helpers:
+            def guard_flags(body, bb):
+                g = set()
+                for (d, s_) in body.control_dep_closure(bb):
+                    t = body.term(d)
+                    if t["k"] != "switch" or t["op"].get("k") == "const":
+                        continue
+                    si = body.switch_info(d)
+                    src = {"pl": si["place"]} if si and si["kind"] == "discr" else t["op"]
+                    for a in body.atoms(src):
+                        if a[0] == "call" and a[1].startswith(info["adt"] + "::") and a[1].split("::")[-1] in flag_helpers:
+                            g.add(a[1].split("::")[-1])
+                return g
+
+            def len_guard(f):
+                g = set()
+                found = False
+                for hname, hb in info["helpers"].items():
+                    if not hname.endswith("_len"):
+                        continue
+                    own, _ = own_len_fields(ctx, info, hname)
+                    if f not in own:
+                        continue
+                    # blocks of hb that read field f
+                    blocks = set()
+                    for i in sorted(hb.reach):
+                        for st in hb.blocks[i]["stmts"]:
+                            if st["k"] != "assign":
+                                continue
+                            rv = st["rv"]
+                            direct = []
+                            for key in ("op", "a", "b"):
+                                if isinstance(rv.get(key), dict) and rv[key].get("pl"):
+                                    direct.append(rv[key]["pl"])
+                            if rv.get("pl"):
+                                direct.append(rv["pl"])
+                            for o in rv.get("ops", []):
+                                if o.get("pl"):
+                                    direct.append(o["pl"])
+                            if any((info["adt"], f) in place_fields(pl) for pl in direct):
+                                blocks.add(i)
+                    for i in blocks:
+                        found = True
+                        g |= guard_flags(hb, i)
+                    # guards of the call sites of this helper inside other length helpers
+                    for h2, hb2 in info["helpers"].items():
+                        if h2 == hname or not h2.endswith("_len"):
+                            continue
+                        for i, t in hb2.calls(re.escape(info["adt"]) + "::" + hname + "$"):
+                            g |= guard_flags(hb2, i)
+                return g if found else None
+            for f, es in sorted(emitted_fields.items()):
+                direct = [e for e in es if e["item"][0] == "field"]
+                if not direct:
+                    continue
+                ge = set()
+                for e in direct:
+                    ge |= guard_flags(enc, e["bb"])
+                gl = len_guard(f)
+                if gl is None:
+                    continue
+                out.append(Inst("LM", "%s:LM5:%s" % (name, f), ge == gl, enc.site(direct[0]["bb"]),
+                                "field %s is written under %s and counted under %s" % (f, sorted(ge) or "no flag", sorted(gl) or "no flag"),
+                                "a field is counted exactly when it is written (same flag predicates)"))
         # LM-6
         meas = measured_types(ctx, info)
         emit_t = {}
